@@ -103,6 +103,12 @@ Prefix == pc = "done" => /\ imfs = SubSeq(Uncapped, 1, Len(imfs))
                          /\ Len(imfs) = (IF cap # 0 /\ cap < Len(Uncapped) THEN cap ELSE Len(Uncapped))
 Terminates == <>Finished
 
+\* every step of this model, projected on its control variables, is a step of SiftInd - the typed skeleton on which
+\* Apalache proves CapRespected and the column bookkeeping inductively for EVERY cap        (intended design: Dev = {})
+SI == INSTANCE SiftInd WITH ncols <- Len(imfs)
+RefinesInd == [][SI!Next]_<<cap, pc, layer, Len(imfs), cont>>
+IndInvHolds == SI!IndInv
+
 W_Natural == ~(pc = "done" /\ ~CutShort /\ layer >= 3)
 W_Capped == ~(pc = "done" /\ reasons = {"cap"})
 Json == INSTANCE Json
